@@ -247,7 +247,14 @@ def build_objects(inst, variant=None):
   scale = variant.get('scale', 1.0)
   day0 = pd.Timestamp('2020-02-20') + pd.Timedelta(days=variant.get('date_shift', 0))
   rows = []
-  for (g, d), v in inst['cells'].items():
+  split = variant.get('split_records', 0)
+  for k, ((g, d), v) in enumerate(sorted(inst['cells'].items())):
+    if split and (k * 7 + split) % 5 == 0:
+      # one cell delivered as two records whose mean is the cell value (the pivot averages repeated records)
+      delta = float(1 + (k % 3))
+      rows.append({'date': day0 + pd.Timedelta(days=d), 'geo': ids[g - 1], 'response': (float(v) - delta) * scale})
+      rows.append({'date': day0 + pd.Timedelta(days=d), 'geo': ids[g - 1], 'response': (float(v) + delta) * scale})
+      continue
     rows.append({'date': day0 + pd.Timedelta(days=d), 'geo': ids[g - 1], 'response': float(v) * scale})
   r = random.Random(inst['shuffle_seed'] + variant.get('shuffle', 0))
   r.shuffle(rows)
@@ -274,7 +281,10 @@ def build_objects(inst, variant=None):
     r.shuffle(erows)
     if not erows:
       erows = [{'geo': 'not_in_data' if isinstance(ids[0], str) else 9999, 'control': 1, 'treatment': 1, 'exclude': 1}]
-    elig_obj = geoeligibility.GeoEligibility(pd.DataFrame(erows))
+    edf = pd.DataFrame(erows)
+    if variant.get('elig_geo_as_index'):
+      edf = edf.set_index('geo')          # 'geo' can also be the index (GeoEligibility docstring)
+    elig_obj = geoeligibility.GeoEligibility(edf)
   p = inst['par']
   kw = dict(n_test=p['n_test'], iroas=p['iroas'], n_pretest_max=p['n_pretest_max'], n_designs=p['n_designs'],
             sig_level=p['sig_level'], power_level=p['power_level'], min_corr=p['min_corr'], rho_max=p['rho_max'],
